@@ -530,9 +530,8 @@ func c14History(c *Ctx) {
 			var specFull string
 			for page := 0; ; page++ {
 				line, uo := r.MpUploads(bucket, hasP, pd[0], pd[1] != "", pd[1], km, im, fmt.Sprint(lim), int64(lim))
-				before := c.NMism
 				_, spec := r.judgeProj(line, uo.Obs, "c14:uploads-page", ident, nil)
-				if c.NMism > before || !uo.OK {
+				if !uo.OK {
 					dead = true
 					break
 				}
@@ -615,9 +614,8 @@ func c14History(c *Ctx) {
 					fmt.Sscan(marker, &mk)
 				}
 				line, po := r.MpParts(u.bucket, u.key, u.id, marker, fmt.Sprint(lim), mk, int64(lim))
-				before := c.NMism
 				_, spec := r.judgeProj(line, po.Obs, "c14:parts-page", ident, nil)
-				if c.NMism > before || !po.OK {
+				if !po.OK {
 					dead = true
 					break
 				}
